@@ -513,6 +513,7 @@ func commentLine(l []byte, bh *Header) error {
 	if len(fields) < 2 {
 		return errBadHeader
 	}
-	bh.Comments = append(bh.Comments, string(fields[1]))
+	// A comment is all of the line after the record type: it may hold tabs.
+	bh.Comments = append(bh.Comments, string(bytes.Join(fields[1:], []byte{'\t'})))
 	return nil
 }
